@@ -351,11 +351,15 @@ func backendJobs(t *tape.Tape, doc *gen.Node, repoURL string) []*job {
 		for k, v := range nodeEnvMap(s.Get("env")) {
 			j.env[k] = v
 		}
-		// unrelated variables the backend adds
-		j.env["BUILDKITE_JOB_ID"] = fmt.Sprintf("job-%d", i)
-		if t.Draw(2, "backend:extra-env") == 1 {
+		// unrelated variables the backend adds: several, one, or none at all (the job env then holds
+		// exactly the pipeline's and the step's variables)
+		switch t.Draw(3, "backend:extra-env") {
+		case 1:
+			j.env["BUILDKITE_JOB_ID"] = fmt.Sprintf("job-%d", i)
 			j.env["BUILDKITE_AGENT_NAME"] = "agent-1"
 			j.env["CI"] = "true"
+		case 0:
+			j.env["BUILDKITE_JOB_ID"] = fmt.Sprintf("job-%d", i)
 		}
 		jobs = append(jobs, j)
 	}
